@@ -1,4 +1,5 @@
 import Proofs.Dist
+import Proofs.DistInfo
 import Generated.C03
 import Theorems.C03P0
 import Theorems.C03P1
@@ -8,6 +9,12 @@ import Theorems.C03P4
 import Theorems.C03P5
 import Theorems.C03P6
 import Theorems.C03P7
+import Theorems.C03I0
+import Theorems.C03I1
+import Theorems.C03I2
+import Theorems.C03I3
+import Theorems.C03I4
+import Theorems.C03I5
 /-!
 # C03 — the (n, k, d) and structure a code object advertises are its true parameters
 
@@ -110,7 +117,38 @@ theorem sphere_packing (d : DistInst) (hd : d ∈ Generated.C03.instances) (hp :
     decide +kernel
   exact this d hd hp
 
+/-! ## codes too large to enumerate: information-set bound
+
+`Generated.C03.infoInstances`: for every catalogue instance with k > 13 whose bounded enumeration fits the kernel budget, an
+information set `pos` and the inverse `M` of the generator matrix restricted to it (computed by the harness, *checked* here).
+`DistInfo.info_bound` is the unbounded soundness theorem: a codeword is at least as heavy as its restriction to the
+information set, so only restrictions lighter than the advertised distance need enumerating (and one less when every
+generator row has even weight). -/
+
+theorem info_instances_ok : ∀ c ∈ Generated.C03.infoInstances, infoOk c = true := by
+  intro c hc
+  simp only [Generated.C03.infoInstances, List.mem_append] at hc
+  rcases hc with ((((h | h) | h) | h) | h) | h
+  · exact info0_ok c h
+  · exact info1_ok c h
+  · exact info2_ok c h
+  · exact info3_ok c h
+  · exact info4_ok c h
+  · exact info5_ok c h
+
+/-- every information-set instance is a catalogue instance: same generator matrix, same advertised distance -/
+theorem info_instances_in_catalogue : ∀ c ∈ Generated.C03.infoInstances, ∃ d ∈ Generated.C03.instances,
+    d.name = c.name ∧ d.n = c.n ∧ d.k = c.k ∧ d.G = c.G ∧ d.advD = c.advD ∧ d.knownBad = false := by
+  decide +kernel
+
+/-- **true minimum distance ≥ advertised** for the large instances (k > 13): every non-zero codeword of the published
+generator matrix has at least the advertised weight -/
+theorem min_distance_large (c : InfoInst) (hc : c ∈ Generated.C03.infoInstances) :
+    ∀ m, m ≠ 0 → m < 2 ^ c.k → c.advD ≤ weight c.n (encode c.G m) :=
+  fun m h0 hm => DistInfo.info_bound c (info_instances_ok c hc) m h0 hm
+
 /-! ## non-vacuity -/
+example : ∃ c ∈ Generated.C03.infoInstances, c.k > 20 ∧ c.advD ≥ 3 := by decide +kernel
 example : ∃ d ∈ Generated.C03.instances, d.decided = true ∧ d.exact = true ∧ d.advD = 7 ∧ d.perfect = true := by
   decide +kernel
 example : ∃ d ∈ Generated.C03.instances, d.cyclic = true ∧ d.n = 15 := by decide +kernel
